@@ -25,6 +25,18 @@ Theorem C01_run_refines : forall c ts,
   end.
 Proof. exact T_C01_run_refines. Qed.
 
+(* Without an armed fuse (i.e. when no user callback panics) every outcome is one the reference
+   predicts: the only panics are the documented ones it allows (missing key on index, capacity
+   overflow), never a user panic, an assertion or a debug-only check. *)
+Theorem C01_run_refines_no_fuse : forall c ts w acc,
+  0 < cR c -> WInv c w -> w_fuse w = None -> Forall core_op (map t_op ts) ->
+  match run c w ts acc with
+  | inl (w', outs) =>
+      WInv c w' /\ w_fuse w' = None /\ exists rs, outs = acc ++ rs /\ spec_runs0 (wabs w) (map t_op ts) rs (wabs w')
+  | inr f => benign f
+  end.
+Proof. exact T_C01_run_refines_no_fuse. Qed.
+
 (* len() = number of key-value pairs, in every reachable state *)
 Theorem C01_len : forall c w i m,
   0 < cR c -> reachable c w -> w_maps w !! i = Some m ->
@@ -34,3 +46,4 @@ Proof. exact T_C01_len. Qed.
 Print Assumptions C01_step_refines.
 Print Assumptions C01_run_refines.
 Print Assumptions C01_len.
+Print Assumptions C01_run_refines_no_fuse.
